@@ -554,6 +554,7 @@ func runC09(c *core.Case, st *core.CaseStats, rep func(fn, kind string, in, exp,
 				enc, err = cryptz.Encrypt(plain, secret)
 			}
 		}) && err == nil {
+			core.RetainBytes(st, c, "Encrypt", in, enc)
 			raw, e2 := base64.StdEncoding.DecodeString(string(enc))
 			if e2 != nil || len(raw) != o.Cbc || string(raw[:8]) != "Salted__" {
 				rep("Encrypt", "value", in, fmt.Sprintf("base64 of Salted__ + salt + %d bytes", o.Cbc-16), string(enc))
@@ -588,6 +589,7 @@ func runC09(c *core.Case, st *core.CaseStats, rep func(fn, kind string, in, exp,
 			rep("Encrypt", "value", in, "no error", err.Error())
 		}
 		if guard("GCMEncrypt", in, func() { enc, err = cryptz.GCMEncrypt(plain, secret, aad) }) && err == nil {
+			core.RetainBytes(st, c, "GCMEncrypt", in, enc)
 			raw, e2 := hex.DecodeString(string(enc))
 			if e2 != nil || len(raw) != o.Gcm || string(raw[:8]) != "Salted__" {
 				rep("GCMEncrypt", "value", in, fmt.Sprintf("hex of Salted__ + salt + %d bytes", o.Gcm-16), string(enc))
@@ -603,6 +605,7 @@ func runC09(c *core.Case, st *core.CaseStats, rep func(fn, kind string, in, exp,
 				if err != nil || !bytes.Equal(dec, plain) {
 					rep("GCMDecrypt", "value", in, plain, fmt.Sprint(dec, err))
 				}
+				core.RetainBytes(st, c, "GCMDecrypt", in, dec)
 			}
 		}
 	case "opensslform":
